@@ -1165,10 +1165,11 @@ func gtRun(t *testing.T, rt *rapid.T) {
 		if sim.StepsOut {
 			vs.G.Inc("steps_out")
 		}
+		pending := sim.PendingTasks()
 		if stuck := h.teardown(); stuck && viol == nil {
 			viol = vs.Violf(gtProp, "stuck_at_teardown", h.mode()+":stuck",
 				"goroutines stayed blocked in the %s after every context was cancelled and the %s; pending: %v",
-				h.mode(), map[bool]string{true: "queue closed", false: "gate released with the condition set"}[plan.Queue], sim.PendingTasks())
+				h.mode(), map[bool]string{true: "queue closed", false: "gate released with the condition set"}[plan.Queue], pending)
 		}
 		sim.Abort()
 		simDur = sim.Elapsed()
